@@ -135,6 +135,27 @@ package multiparty
 //@   requires len(activesPoints) < cmb.threshold
 //@   ensures !isnil(err)
 
+// the additive share of a party (property C15): its aggregated Shamir share times the product of the cached
+// Lagrange factors of the OTHER parties among the first t listed - whatever the position of the party itself
+// in the list - and the cache of factors and the constant one are left as they were (a second call on the
+// same combiner reads them again).  A BOUNDED instance: threshold 3, the loop unwound.
+//@ afunc Combiner.GenAdditiveShare#t3
+//@   property C15
+//@   bounded threshold 3 (three listed parties), loop unwound: not a proof for every threshold
+//@   unwind 4
+//@   case len(activesPoints) == 3 && cmb.threshold == 3 ; set cmb.ringQP.RingP = nil
+//@   requires activesPoints[0] != activesPoints[1] && activesPoints[0] != activesPoints[2] && activesPoints[1] != activesPoints[2]
+//@   requires len(cmb.tmp2) == len(cmb.one) && val(cmb.one) == 1 && mexp(cmb.one) == 1
+//@   requires mexp(cmb.lagrangeCoeffs[activesPoints[0]]) == 1 && mexp(cmb.lagrangeCoeffs[activesPoints[1]]) == 1 && mexp(cmb.lagrangeCoeffs[activesPoints[2]]) == 1
+//@   let f0 = ite(activesPoints[0] != ownPoint, val(cmb.lagrangeCoeffs[activesPoints[0]]), 1)
+//@   let f1 = ite(activesPoints[1] != ownPoint, val(cmb.lagrangeCoeffs[activesPoints[1]]), 1)
+//@   let f2 = ite(activesPoints[2] != ownPoint, val(cmb.lagrangeCoeffs[activesPoints[2]]), 1)
+//@   ensures isnil(err)
+//@   ensures val(skOut.Value.Q) == old(val(ownShare.Poly.Q)) * old(f0) * old(f1) * old(f2)
+//@   ensures mexp(skOut.Value.Q) == old(mexp(ownShare.Poly.Q))
+//@   ensures val(cmb.lagrangeCoeffs[activesPoints[0]]) == old(val(cmb.lagrangeCoeffs[activesPoints[0]])) && val(cmb.lagrangeCoeffs[activesPoints[1]]) == old(val(cmb.lagrangeCoeffs[activesPoints[1]])) && val(cmb.lagrangeCoeffs[activesPoints[2]]) == old(val(cmb.lagrangeCoeffs[activesPoints[2]]))
+//@   ensures val(cmb.one) == 1 && mexp(cmb.one) == 1
+
 // ---------------------------------------------------------------------------------------------
 // Serialization, count level (property C08).  For every serializable type: WriteTo reports, on
 // success, exactly the number of bytes the value announces (announced(x): the result of running
@@ -285,9 +306,12 @@ package multiparty
 // ---- 64-bit integers.  distinctmod is a ghost predicate: nothing in the library establishes it.
 //@ ghost distinctmod(a, b) bool
 
+// the factor of party j in the interpolation at 0 seen from party i: x_j / (x_j - x_i), in Montgomery form
 //@ afunc Combiner.lagrangeCoeff
-//@   trusted the arithmetic (subtraction, Fermat inverse, product per modulus) is not verified here; the contract carries its precondition
+//@   property C15
 //@   requires distinctmod(thisKey, thatKey)
+//@   assigns lagCoeff
+//@   ensures val(lagCoeff) == thatKey * uf_inv(thatKey - thisKey) && mexp(lagCoeff) == 1
 
 // bounded instance (one Q modulus, no P, at most two other parties): the obligation of interest, the
 // precondition of lagrangeCoeff at its call site, does not depend on those sizes
@@ -297,7 +321,7 @@ package multiparty
 //@   unwind 4
 //@   case len(params.ringQ.SubRings) == 1 ; set params.ringP = nil
 //@   requires len(others) <= 2
-//@   ensures true
+//@   ensures implies(len(others) == 1 && others[0] != own, val(result.lagrangeCoeffs[others[0]]) == others[0] * uf_inv(others[0] - own) && mexp(result.lagrangeCoeffs[others[0]]) == 1)
 
 // ---- finalisation of the collective evaluation key (property C14): every digit of every RNS component
 // ---- of the aggregated share, and of the common reference polynomials, reaches the key.  Checked for
